@@ -804,7 +804,7 @@ impl Property for C20 {
 
     fn gen(&self, src: &mut Src) -> Scenario {
         let kind = KINDS6[src.draw(6) as usize];
-        let n = 1 + src.draw(10);
+        let n = 1 + src.draw(if crate::prop::deep() { 20 } else { 10 });
         let mut steps = Vec::new();
         for si in 0..n {
             let s = match src.draw(16) {
@@ -855,6 +855,12 @@ impl Property for C20 {
                     knobs.scale = [8, 24][src.draw(2) as usize];
                     knobs.max_width = knobs.max_width.min(5);
                     knobs.origin = [src.draw(48) as i32, src.draw(48) as i32];
+                    // no raw images here: their colours come out of the raw decoder, and a decoder
+                    // defect (C09/C11) could put out-of-range colour values into the display
+                    knobs.kinds.retain(|k| *k != 9 && *k != 10);
+                    if knobs.kinds.is_empty() {
+                        knobs.kinds.push(src.draw(9) as u8);
+                    }
                     Step::Drawable(gen_drawable(src, &knobs, kind.bits()))
                 }
                 9 => Step::SetPixel {
